@@ -517,6 +517,56 @@ def check(ctx):
                               % (mapsrc, keysrc), stmt='%s[%s]' % (mapsrc, keysrc))
     if n3 < 8 and not any(f.rule == 'C12.R3' for f in ctx.findings):
         raise AnalysisError('C12.R3 examined only %d data-keyed lookups' % n3)
+    # (b) the type checker is the first code that sees the caller's value: there, a value that has not been through an isinstance test yet may be of any type, also an
+    #     unhashable one -- using it as a dictionary key or set member raises TypeError, not KeyError.  Every method parameter is such a value.
+    tcm3 = model.mod('asn1tools/codecs/type_checker.py')
+    n3b = 0
+    for c3 in tcm3.classes.values():
+        for f3 in c3.methods.values():
+            if not f3.name.startswith('encode'):
+                continue
+            ps3 = [p_ for p_ in flow.param_names(f3) if p_ != 'self']
+            if not ps3:
+                continue
+            d3, _e3 = flow.deps(f3, sources=set(ps3))
+
+            def derived(expr, d3=d3, ps3=ps3):
+                return any((nm in ps3) or d3.get(nm) for nm in names_in(expr))
+            for n in walk_no_nested(f3):
+                key = None
+                if isinstance(n, ast.Subscript) and isinstance(n.ctx, ast.Load) and not isinstance(n.slice, ast.Slice) and isinstance(n.value, ast.Attribute) \
+                        and isinstance(n.value.value, ast.Name) and n.value.value.id == 'self':
+                    key = n.slice
+                elif isinstance(n, ast.Compare) and len(n.ops) == 1 and isinstance(n.ops[0], (ast.In, ast.NotIn)) and isinstance(n.comparators[0], ast.Attribute) \
+                        and isinstance(n.comparators[0].value, ast.Name) and n.comparators[0].value.id == 'self':
+                    key = n.left
+                elif isinstance(n, ast.Call) and isinstance(n.func, ast.Attribute) and n.func.attr == 'get' and isinstance(n.func.value, ast.Attribute) \
+                        and isinstance(n.func.value.value, ast.Name) and n.func.value.value.id == 'self' and n.args:
+                    key = n.args[0]
+                if key is None or isinstance(key, ast.Constant) or not derived(key):
+                    continue
+                n3b += 1
+                ktxt = ast.unparse(key)
+                ok = False
+                how = ''
+                for t in flow.enclosing_try_handlers(n, stop=f3):
+                    for h in t.handlers:
+                        if flow.handler_catches(h, ('TypeError', 'Exception')):
+                            ok, how = True, 'TypeError handled'
+                if not ok:
+                    # on every path that reaches the lookup an isinstance test of the key has succeeded (the failing arm raised)
+                    ps3_ = sem.paths(f3)
+                    reach3 = sem.reaching(ps3_, Model.enclosing_stmt(n)) if ps3_ is not None else None
+                    if reach3:
+                        ok = all(any(c_[1] and c_[0].startswith('isinstance(%s, ' % ktxt) for c_ in conds_) or
+                                 any('sys.version_info' in c_[0] and not c_[1] for c_ in conds_ if False) for _p, conds_ in reach3)
+                        how = 'an isinstance test of the key holds on every path' if ok else ''
+                ctx.instance('C12.R3', '%s key %s (may be unhashable)' % (Model.qual(f3), ktxt[:50]), how if ok else 'VIOLATION', node=n, file=tcm3.rel)
+                if not ok:
+                    ctx.violation('C12.R3', tcm3.rel, n, Model.qual(f3),
+                                  '`%s` uses `%s`, a part of the value that no isinstance test has seen yet, as a dictionary key: an ill-typed unhashable value (a list where an INTEGER '
+                                  'is expected) raises TypeError, a foreign exception without the path, instead of the encode error of the component' % (ast.unparse(n)[:70], ktxt[:50]),
+                                  stmt='unchecked value as key')
 
     n4 = 0
     for f in sorted(reach, key=lambda g: (g._mod.rel, g.lineno)):
